@@ -41,7 +41,7 @@ class BalDom(Domain):
                 if isinstance(n, (ast.Return, ast.Raise, ast.Break, ast.Continue)):
                     r = True
                     break
-                if isinstance(n, ast.Call) and self.an.call_relevant(n, self.func):
+                if isinstance(n, ast.Call) and (self.an.call_relevant(n, self.func) or self.an.observe_call(n, self.func)):
                     r = True
                     break
                 if isinstance(n, (ast.With,)) and self.an.with_relevant(n, self.func):
@@ -61,6 +61,8 @@ class BalDom(Domain):
 
     def on_call(self, st, call, ctx):
         outs = []
+        if self.an.observe_call(call, self.func):
+            self.an.observed.setdefault((self.func, call), set()).add(st.u)
         for kind, vec, lab in self.an.call_effects(call, self.func):
             st2 = st._replace(u=vadd(st.u, vec))
             if kind == RAISE:
@@ -101,6 +103,11 @@ class BalanceAnalysis:
         self.in_progress = set()
         self.changed = False
         self.fault_sites = {}
+        self.observed = {}      # (Func, call node) -> set of vectors seen on entry to an observed call
+
+    def observe_call(self, call, func):
+        """True for calls whose entry state should be recorded in self.observed"""
+        return False
 
     def unit(self, counter, k):
         return tuple(k if c == counter else 0 for c in self.counters)
